@@ -409,13 +409,76 @@ def c06(ctx, res):
                 if r.rc != 0:
                     res.violate("C06/no-implicit-halt", "an image (%s) whose execution reaches the word behind it does not end normally there (exit %s): no implicit HALT"
                                 % (behind[ix], r.rc), detail)
+    c06_after_failed_compile(ctx, res)
     res.distinct += len(set(files))
-    res.require(["round_trip", "dest:longer_file_existed", "dest:absent", "ext:lc3", "ext:obj", "loader:empty", "loader:odd", "loader:fits", "loader:too_long",
+    res.require(["round_trip_after_a_failed_compile", "round_trip", "dest:longer_file_existed", "dest:absent", "ext:lc3", "ext:obj", "loader:empty", "loader:odd", "loader:fits", "loader:too_long",
                  "edge:FFFF", "edge:10000", "edge:FFFE", "delivery:fifo:odd", "delivery:fifo:even", "loader:runs_into_implicit_halt", "object_with_long_zero_run", "directed_round_trip:across_fe00_string", "directed_round_trip:crlf"], "L2")
     return res
 
 
 # ------------------------------------------------------------------ C07 / C19 (watch)
+
+def c06_after_failed_compile(ctx, res):
+    """A valid program compiles to exactly its 2(n+1) bytes and runs from them - also when an earlier
+    compile in the same directory, to the same stem, failed or was cut off (destination is a
+    directory, destination directory missing, source rejected, process killed by a file-size
+    limit in the middle of writing): nothing such a failure leaves behind may stand in the way."""
+    import resource
+    d = _dir(ctx, "c06_after")
+    src = "lea r0 m\nputs\nhalt\nm .stringz \"round trip\"\n" + ".fill x1234\n" * 5000
+    words = [0x3000, 0xE002, 0xF022, 0xF025] + [ord(c) for c in "round trip"] + [0] + [0x1234] * 5000
+    want = b"".join(w.to_bytes(2, "big") for w in words)
+    exe = common.cli_bin(ctx)
+    env = dict(common.ENV, NO_COLOR="1", XDG_CACHE_HOME=ctx.scratch)
+
+    def history(kind):
+        cd = os.path.join(d, kind)
+        os.makedirs(cd, exist_ok=True)
+        _write(os.path.join(cd, "hi.asm"), src)
+        _write(os.path.join(cd, "bad.asm"), "add r0 r0 #99\n")
+        first = None
+        if kind == "dest_is_directory":
+            os.makedirs(os.path.join(cd, "prog"), exist_ok=True)
+            first = lace(ctx, ["compile", "hi.asm", "prog"], cwd=cd)
+        elif kind == "dest_dir_missing":
+            first = lace(ctx, ["compile", "hi.asm", "nowhere/prog.lc3"], cwd=cd)
+        elif kind == "source_rejected":
+            first = lace(ctx, ["compile", "bad.asm", "prog.lc3"], cwd=cd)
+        elif kind == "killed_by_file_size_limit":
+            def lim():
+                resource.setrlimit(resource.RLIMIT_FSIZE, (4096, 4096))
+            p = subprocess.run([exe, "compile", "hi.asm", "prog.lc3"], cwd=cd, env=env, stdin=subprocess.DEVNULL,
+                               stdout=subprocess.PIPE, stderr=subprocess.PIPE, preexec_fn=lim, timeout=60)
+            first = common.CliRun(["compile", "hi.asm", "prog.lc3"], p.returncode, p.stdout, p.stderr, 0.0)
+            # whatever the cut-off compile left of the destination itself is C08's business: start the second from a clean name
+            if os.path.exists(os.path.join(cd, "prog.lc3")):
+                os.remove(os.path.join(cd, "prog.lc3"))
+        elif kind == "dev_full":
+            first = lace(ctx, ["compile", "hi.asm", "/dev/full"], cwd=cd)
+        out = []
+        for dest in ("prog.lc3", "prog.obj"):
+            c = lace(ctx, ["compile", "hi.asm", dest], cwd=cd)
+            data = open(os.path.join(cd, dest), "rb").read() if os.path.exists(os.path.join(cd, dest)) else None
+            r = lace(ctx, ["run", dest, "--minimal"], cwd=cd) if data is not None else None
+            out.append((dest, c, data, r))
+        return kind, first, out, sorted(os.listdir(cd))
+    kinds = ["dest_is_directory", "dest_dir_missing", "source_rejected", "killed_by_file_size_limit", "dev_full"]
+    for kind, first, outs, listing in pmap(history, kinds):
+        for dest, c, data, r in outs:
+            res.evaluations += 1
+            res.cls("round_trip_after_a_failed_compile")
+            res.cls("after:" + kind)
+            detail = {"first_compile": first.brief() if first else None, "second_compile": c.brief(), "directory_afterwards": listing,
+                      "destination": dest, "expected_bytes": len(want), "bytes": None if data is None else len(data)}
+            if first is not None and first.rc == 0:
+                res.inconclusive["the compile that was meant to fail (%s) succeeded" % kind] = 1
+                continue
+            if c.rc != 0 or data != want:
+                res.violate("C06/after-failed-compile/object", "after a compile that failed (%s), `lace compile hi.asm %s` exits %s and leaves %s bytes; the object file is %d bytes"
+                            % (kind, dest, c.rc, None if data is None else len(data), len(want)), detail)
+            elif r is None or r.rc != 0 or b"round trip" not in r.out:
+                res.violate("C06/after-failed-compile/run", "the object file written after a failed compile (%s) does not run like the source (exit %s)" % (kind, None if r is None else r.rc), detail)
+
 
 def outcome(r):
     if r.rc is None or r.crashed:
